@@ -69,7 +69,7 @@ impl StyleSheetOutput {
         }
         self.prev_ser_type = next_ser_type;
         let output_start_pos = self.s.len();
-        token.to_css(&mut self.s).unwrap();
+        write_token(&token, &mut self.s);
         let name = src.map(|x| {
             let s = x.to_css_string();
             self.source_map.add_name(&s)
@@ -93,5 +93,55 @@ impl StyleSheetOutput {
         } else {
             self.append_token(token, src);
         }
+    }
+}
+
+/// Serialize a token; integers are written from their integer value
+/// (the generic serializer prints the `f32` value with 6 significant digits).
+fn write_token(token: &Token, out: &mut String) {
+    fn write_int(has_sign: bool, value: f32, int_value: i32, out: &mut String) {
+        if has_sign && value.is_sign_positive() {
+            out.push('+');
+        }
+        if int_value == 0 && value.is_sign_negative() {
+            out.push_str("-0");
+        } else {
+            write!(out, "{}", int_value).unwrap();
+        }
+    }
+    match token {
+        Token::Number {
+            has_sign,
+            value,
+            int_value: Some(int_value),
+        } => write_int(*has_sign, *value, *int_value, out),
+        Token::Percentage {
+            has_sign,
+            unit_value,
+            int_value: Some(int_value),
+        } => {
+            write_int(*has_sign, *unit_value, *int_value, out);
+            out.push('%');
+        }
+        Token::Dimension {
+            has_sign,
+            value,
+            int_value: Some(int_value),
+            unit,
+        } => {
+            write_int(*has_sign, *value, *int_value, out);
+            // the unit (with its escapes) as the generic serializer writes it after the number `1`
+            let mut one = String::new();
+            Token::Dimension {
+                has_sign: false,
+                value: 1.,
+                int_value: Some(1),
+                unit: unit.clone(),
+            }
+            .to_css(&mut one)
+            .unwrap();
+            out.push_str(&one[1..]);
+        }
+        _ => token.to_css(out).unwrap(),
     }
 }
